@@ -191,11 +191,16 @@ var hlslBackend = textBackend{
 		}
 		sc := hlsl.BindTarget{Space: 7, Register: 0}
 		o.SpecialConstantsBinding = &sc
-		text, _, err := hlsl.Compile(mod, o)
+		text, hinfo, err := hlsl.Compile(mod, o)
 		tr.text = text
 		if err != nil {
 			tr.err = err
 			return
+		}
+		if hinfo != nil {
+			if n, ok := hinfo.EntryPointNames[entry]; ok && n != "" {
+				entry = n
+			}
 		}
 		p, perr := hlslx.Parse(text)
 		if perr != nil {
@@ -248,7 +253,10 @@ var hlslBackend = textBackend{
 }
 
 var mslBackend = textBackend{
-	name:    "msl",
+	name: "msl",
+	cfg: func() wgen.Config {
+		return wgen.Config{Off: wgen.SafeOff("inline-const-precedence", "fn.dot.int", "fn.select", "postfix-on-compound", "fn.round", "fn.sign", "fn.firstLeadingBit", "fn.firstTrailingBit", "swizzle.on-constructor", "ptr.dynamic-element")}
+	},
 	nopt:    func(th bool) int { return len(mslOptionSets(th)) },
 	optName: func(th bool, i int) string { return mslOptionSets(th)[i].name },
 	run: func(mod *ir.Module, entry string, rs []resInfo, ng3 [3]uint32, th bool, oi int, trap bool) (tr textRun) {
@@ -265,11 +273,15 @@ var mslBackend = textBackend{
 		for _, e := range mod.EntryPoints {
 			o.PerEntryPointMap[e.Name] = msl.EntryPointResources{Resources: res, SizesBuffer: &sizes}
 		}
-		text, _, err := msl.Compile(mod, o)
+		text, minfo, err := msl.Compile(mod, o)
 		tr.text = text
 		if err != nil {
 			tr.err = err
 			return
+		}
+		wgslEntry := entry
+		if n, ok := minfo.EntryPointNames[entry]; ok && n != "" {
+			entry = n
 		}
 		p, perr := mslx.Parse(text)
 		if perr != nil {
@@ -321,7 +333,7 @@ var mslBackend = textBackend{
 		}
 		ls := [3]uint32{1, 1, 1}
 		for _, e := range mod.EntryPoints {
-			if e.Name == entry {
+			if e.Name == wgslEntry {
 				ls = e.Workgroup
 			}
 		}
